@@ -410,6 +410,40 @@ func checkC19(p *Prog, r *Report) {
 		if !r.Anchor(ap.fn, f != nil) {
 			continue
 		}
+		// roles, not names: the list of unmapped addresses is the slice parameter of the result's type, or the
+		// local initialised with a composite literal; the mapped list is result #0 of findExternalIPs
+		origName, mappedName := "\x00", "\x00"
+		if sig, okS := p.TypeOfFunc(f); okS && sig.Results().Len() >= 1 {
+			rt := typeStr(sig.Results().At(0).Type())
+			for i := 0; ; i++ {
+				o := p.paramObj(f, i)
+				if o == nil {
+					break
+				}
+				if typeStr(o.Type()) == rt {
+					origName = o.Name()
+					break
+				}
+			}
+			if origName == "\x00" {
+				if o := p.localByDef(f, func(rhs ast.Expr) bool {
+					cl, okC := unparen(rhs).(*ast.CompositeLit)
+					return okC && typeStr(p.TypeOf(cl)) == rt
+				}); o != nil {
+					origName = o.Name()
+				}
+			}
+		}
+		walkBody(f, func(n ast.Node) bool {
+			if as, okA := n.(*ast.AssignStmt); okA && len(as.Rhs) == 1 && len(as.Lhs) >= 1 {
+				if c, okC := unparen(as.Rhs[0]).(*ast.CallExpr); okC && p.CalleeName(c) == "ice.addressRewriteMapper.findExternalIPs" {
+					if id, okI := as.Lhs[0].(*ast.Ident); okI {
+						mappedName = id.Name
+					}
+				}
+			}
+			return true
+		})
 		t := p.NewTable(f)
 		t.Event = func(n ast.Node, _ *TEnv) []string {
 			var out []string
@@ -463,8 +497,8 @@ func checkC19(p *Prog, r *Report) {
 			res, ok := sp.Results[0], sp.Results[1] == "true"
 			// classify the returned list
 			kind := "?"
-			hasOrig := strings.Contains(res, "$"+ap.orig+"#")
-			hasMapped := strings.Contains(res, "$mappedIPs#") || sp.Has("append-mapped")
+			hasOrig := strings.Contains(res, "$"+origName+"#")
+			hasMapped := strings.Contains(res, "$"+mappedName+"#") || sp.Has("append-mapped")
 			isAppend := strings.HasPrefix(res, "builtin.append(") || sp.Has("append-mapped")
 			switch {
 			case !ok:
@@ -475,7 +509,7 @@ func checkC19(p *Prog, r *Report) {
 				kind = "orig+mapped"
 			case hasOrig && !isAppend:
 				kind = "orig"
-			case strings.Contains(res, "$mappedIPs#") && !hasOrig:
+			case strings.Contains(res, "$"+mappedName+"#") && !hasOrig:
 				kind = "mapped"
 			}
 			replace := sp.Vals["mode"] == "==AddressRewriteReplace"
